@@ -68,7 +68,7 @@ def greedy_vectors(ast, rng, k):
 def gen_large(ctx, label):
     """sparse instances with more than 256 / 1000 agents on one side (ids just above the base in the lists)"""
     rng = ctx.rng(label + '/large')
-    bases = [256] + ([1000, 128, 512, 4096] if ctx.thorough else [])
+    bases = [256] + ([1000, 128, 512, 2048] if ctx.thorough else [])
     for base in bases:
         for side in (1, 2):
             for na in (2, 3):
